@@ -32,11 +32,43 @@ DOTDOT = b".."
 NEAR_MISS = [b"...", b"..a", b"a..", b".a", b"a.", b"...."]
 
 # reference tree used by most probes (canonical paths; d = directory, f = file with that content)
-REF = [(b"x", "d", None), (b"x/y", "d", None), (b"x/y/z", "f", b"content-of-x/y/z\n"), (b"x/w", "f", b"content-of-x/w\n"),
-       (b"x/...", "d", None), (b"x/.../..a", "f", b"content-of-x/.../..a\n"), (b"q", "d", None), (b"q/v", "f", b"content-of-q/v\n")]
+REF = [(b"c18x", "d", None), (b"c18x/y", "d", None), (b"c18x/y/z", "f", b"content-of-c18x/y/z\n"), (b"c18x/w", "f", b"content-of-c18x/w\n"),
+       (b"c18x/...", "d", None), (b"c18x/.../..a", "f", b"content-of-c18x/.../..a\n"), (b"c18q", "d", None), (b"c18q/v", "f", b"content-of-c18q/v\n")]
 REF_PATHS = [p for p, _, _ in REF]
 REF_FILES = [p for p, k, _ in REF if k == "f"]
 REF_DIRS = [p for p, k, _ in REF if k == "d"]
+
+
+class Tree:
+    """a clean tree: entries = [(canonical path, 'd' | 'f', content)] in an order where parents come first"""
+
+    def __init__(self, name, entries):
+        self.name, self.entries = name, entries
+        self.paths = [p for p, _, _ in entries]
+        self.files = [p for p, k, _ in entries if k == "f"]
+        self.dirs = [p for p, k, _ in entries if k == "d"]
+        self.txt = self.img = self.src_dir = None
+
+
+def random_tree(rng, name, k):
+    """seeded tree for the class B probes: names include the near misses of '.' and '..'"""
+    names = [b"a", b"b", b"c", b"dd", b"e.f", b"...", b"..a", b"a..", b".a", b"a.", b"....", b"zz"]
+    top = b"c18" + name.encode()        # one distinctive top-level name: a broken rdsquashfs that unpacks to an absolute path is traceable
+    dirs, entries, seen = [top], [(top, "d", None)], {top}
+    guard = 0
+    while len(entries) < k and guard < 40 * k:
+        guard += 1
+        parent = rng.choice(dirs)
+        path = parent + b"/" + rng.choice(names)
+        if path in seen or path.count(b"/") > 5:
+            continue
+        seen.add(path)
+        if rng.random() < 0.45:
+            entries.append((path, "d", None))
+            dirs.append(path)
+        else:
+            entries.append((path, "f", b"content-of-" + path + b"\n"))
+    return Tree(name, entries)
 
 
 def tok(b):
@@ -237,37 +269,45 @@ class Funnel:
                 raise vlib.CheckFailure("C18 funnel: Lean model and specification differ on the name %r" % n)
 
     # ---------------------------------------------------------------- reference material
-    def make_reference(self):
-        d = self.d
+    def build_tree(self, T):
+        """pack-file, image (built by gensquashfs of the working tree, verified with the independent lister) and a
+        directory on disk for the clean tree T"""
+        d = self.d / ("tree_" + T.name)
+        d.mkdir(exist_ok=True)
         lines = []
-        for p, k, data in REF:
+        T.src_dir = d / "srcdir"
+        T.src_dir.mkdir(exist_ok=True)
+        for i, (p, k, data) in enumerate(T.entries):
+            q = T.src_dir / os.fsdecode(p)
             if k == "d":
-                lines.append("dir %s 0755 0 0" % p.decode())
-            else:
-                src = d / ("ref_" + p.decode().replace("/", "_").replace(".", "D"))
-                src.write_bytes(data)
-                lines.append("file %s 0644 0 0 %s" % (p.decode(), src))
-        self.ref_txt = d / "ref.txt"
-        self.ref_txt.write_text("\n".join(lines) + "\n")
-        self.ref_img = d / "ref.sqfs"
-        rc, out, err = self.run([self.gen, "-F", self.ref_txt, "-f", "-q", self.ref_img])
-        ls = self.listing(self.ref_img) if rc == 0 else None
-        got = [p for p, _, _, _ in ls] if isinstance(ls, list) else ls
-        self.add("reference", "setup", b"ref.txt", sorted(REF_PATHS), sorted(got) if isinstance(got, list) else got,
-                 rc == 0 and isinstance(got, list) and sorted(got) == sorted(REF_PATHS), err)
-        if not (rc == 0 and isinstance(got, list) and sorted(got) == sorted(REF_PATHS)):
-            raise vlib.CheckFailure("C18 funnel: gensquashfs does not build the reference image (rc=%s): %s" % (rc, err[-500:]))
-        # the same tree as a tar archive and as a directory
-        self.ref_tar = d / "ref.tar"
-        self.mktar(self.ref_tar, [(p, tarfile.DIRTYPE if k == "d" else tarfile.REGTYPE, None, data or b"") for p, k, data in REF])
-        self.src_dir = d / "srcdir"
-        for p, k, data in REF:
-            q = self.src_dir / p.decode()
-            if k == "d":
+                lines.append(b"dir " + p + b" 0755 0 0")
                 q.mkdir(parents=True, exist_ok=True)
             else:
                 q.parent.mkdir(parents=True, exist_ok=True)
                 q.write_bytes(data)
+                lines.append(b"file " + p + b" 0644 0 0 " + os.fsencode(str(q)))
+        T.txt = d / "tree.txt"
+        T.txt.write_bytes(b"\n".join(lines) + b"\n")
+        T.img = d / "tree.sqfs"
+        rc, out, err = self.run([self.gen, "-F", T.txt, "-f", "-q", T.img])
+        ls = self.listing(T.img) if rc == 0 else None
+        got = [p for p, _, _, _ in ls] if isinstance(ls, list) else ls
+        good = rc == 0 and isinstance(got, list) and sorted(got) == sorted(T.paths)
+        self.add("reference", "setup", T.name.encode(), sorted(T.paths), sorted(got) if isinstance(got, list) else got, good, err)
+        if not good:
+            raise vlib.CheckFailure("C18 funnel: gensquashfs does not build the clean reference tree %s (rc=%s): %s" % (T.name, rc, err[-500:]))
+        return T
+
+    def make_reference(self):
+        self.T0 = self.build_tree(Tree("ref", REF))
+        self.ref_txt, self.ref_img, self.src_dir = self.T0.txt, self.T0.img, self.T0.src_dir
+        self.ref_tar = self.d / "ref.tar"
+        self.mktar(self.ref_tar, [(p, tarfile.DIRTYPE if k == "d" else tarfile.REGTYPE, None, data or b"") for p, k, data in REF])
+        self.trees = [self.T0]
+        for i in range(3 if self.ctx.quick() else 12):
+            T = random_tree(self.rng, "rnd%d" % i, self.rng.randint(4, 14))
+            if T.files and T.dirs:
+                self.trees.append(self.build_tree(T))
 
     @staticmethod
     def mktar(path, members):
@@ -306,9 +346,9 @@ class Funnel:
         self.add("packfile", kind, s, sorted(prefixes(m)), got, got == sorted(prefixes(m)), err)
 
     def cases_sortfile(self):
-        return ([("reject", s) for s in reject_set(self.rng, [b"x/y/z", b"x/w"], self.n)] +
+        return ([("reject", s) for s in reject_set(self.rng, [b"c18x/y/z", b"c18x/w"], self.n)] +
                 [("accept", s) for s in accept_set(self.rng, REF_FILES, self.n)] +
-                [("accept", s) for s in near_miss_set(self.rng, [b"x/y/z", b"q"], self.n // 2)])
+                [("accept", s) for s in near_miss_set(self.rng, [b"c18x/y/z", b"c18q"], self.n // 2)])
 
     def probe_sortfile(self, kind, s):
         """sort_by_file.c decode_filename (the line) and fstree_sort_files (the node path it is compared with):
@@ -330,9 +370,9 @@ class Funnel:
         self.add("sortfile", kind, s, exp, got, exp == got, err)
 
     def cases_xattrfile(self):
-        return ([("reject", s) for s in reject_set(self.rng, [b"x/y/z", b"q"], self.n)] +
+        return ([("reject", s) for s in reject_set(self.rng, [b"c18x/y/z", b"c18q"], self.n)] +
                 [("accept", s) for s in accept_set(self.rng, REF_PATHS, self.n)] +
-                [("accept", s) for s in near_miss_set(self.rng, [b"x/y/z", b"q"], self.n // 2)] +
+                [("accept", s) for s in near_miss_set(self.rng, [b"c18x/y/z", b"c18q"], self.n // 2)] +
                 [("accept", b"/"), ("accept", b"/./")])
 
     def probe_xattrfile(self, kind, s):
@@ -372,8 +412,8 @@ class Funnel:
         self.add("tarmember", kind, s, exp, got, got == exp, err)
 
     def cases_tarhardlink(self):
-        return ([("reject", s) for s in reject_set(self.rng, [b"x/y/z"], self.n)] +
-                [("accept", s) for s in accept_set(self.rng, [b"x/y/z", b"x/.../..a", b"q/v"], self.n)])
+        return ([("reject", s) for s in reject_set(self.rng, [b"c18x/y/z"], self.n)] +
+                [("accept", s) for s in accept_set(self.rng, [b"c18x/y/z", b"c18x/.../..a", b"c18q/v"], self.n)])
 
     def probe_tarhardlink(self, kind, s):
         """lib/fstree/src/fstree.c mknode via tar2sqfs: hard link member 'hl' -> <s>; stored target = the inode 'hl' shares"""
@@ -422,9 +462,9 @@ class Funnel:
             return "unreadable tar: %s" % e
 
     def cases_s2t_subdir(self):
-        return ([("reject", s) for s in reject_set(self.rng, [b"x/y", b"q"], self.n)] +
-                [("accept", s) for s in accept_set(self.rng, [b"x/y", b"x", b"q", b"x/..."], self.n)] +
-                [("accept", s) for s in near_miss_set(self.rng, [b"x/y"], 3)])
+        return ([("reject", s) for s in reject_set(self.rng, [b"c18x/y", b"c18q"], self.n)] +
+                [("accept", s) for s in accept_set(self.rng, [b"c18x/y", b"c18x", b"c18q", b"c18x/..."], self.n)] +
+                [("accept", s) for s in near_miss_set(self.rng, [b"c18x/y"], 3)])
 
     def probe_s2t_subdir(self, kind, s):
         """bin/sqfs2tar/src/options.c --subdir: stored name = the sub-directory whose content is written
@@ -440,9 +480,9 @@ class Funnel:
         self.add("s2t_subdir", kind, s, exp, got, got == exp, err)
 
     def cases_t2s_root(self):
-        return ([("reject", s) for s in reject_set(self.rng, [b"x/y", b"x"], self.n)] + [("reject-empty", b"/"), ("reject-empty", b"."), ("reject-empty", b"./")] +
-                [("accept", s) for s in accept_set(self.rng, [b"x/y", b"x", b"q", b"x/..."], self.n)] +
-                [("accept", s) for s in near_miss_set(self.rng, [b"x"], 3)])
+        return ([("reject", s) for s in reject_set(self.rng, [b"c18x/y", b"c18x"], self.n)] + [("reject-empty", b"/"), ("reject-empty", b"."), ("reject-empty", b"./")] +
+                [("accept", s) for s in accept_set(self.rng, [b"c18x/y", b"c18x", b"c18q", b"c18x/..."], self.n)] +
+                [("accept", s) for s in near_miss_set(self.rng, [b"c18x"], 3)])
 
     def probe_t2s_root(self, kind, s):
         """bin/tar2sqfs/src/options.c --root-becomes: refused when the model refuses or the result is empty;
@@ -460,9 +500,9 @@ class Funnel:
         self.add("t2s_root", kind, s, exp, got, got == exp, err)
 
     def cases_t2s_exclude(self):
-        return ([("reject", s) for s in reject_set(self.rng, [b"x/y/z", b"x/w"], self.n)] +
+        return ([("reject", s) for s in reject_set(self.rng, [b"c18x/y/z", b"c18x/w"], self.n)] +
                 [("accept", s) for s in accept_set(self.rng, REF_FILES, self.n)] +
-                [("accept", s) for s in near_miss_set(self.rng, [b"x/w"], 3)])
+                [("accept", s) for s in near_miss_set(self.rng, [b"c18x/w"], 3)])
 
     def probe_t2s_exclude(self, kind, s):
         """bin/tar2sqfs/src/options.c --exclude (M6 of the review): stored name = the one member that is left out
@@ -480,8 +520,8 @@ class Funnel:
         self.add("t2s_exclude", kind, s, exp, got, got == exp, err)
 
     def cases_t2s_retarget(self):
-        ins = (reject_set(self.rng, [b"x/y/z", b"q/v"], self.n) + accept_set(self.rng, [b"x/y/z", b"x/w", b"q/v", b"x"], self.n) +
-               near_miss_set(self.rng, [b"x/y"], 3))
+        ins = (reject_set(self.rng, [b"c18x/y/z", b"c18q/v"], self.n) + accept_set(self.rng, [b"c18x/y/z", b"c18x/w", b"c18q/v", b"c18x"], self.n) +
+               near_miss_set(self.rng, [b"c18x/y"], 3))
         return [("batch", tuple(dict.fromkeys(ins)))]
 
     def probe_t2s_retarget(self, kind, batch):
@@ -489,19 +529,19 @@ class Funnel:
         prefix exactly when the model accepts it and the result lies below x; otherwise it is left untouched
         (here a refusal of canonicalize_name is not a refusal of the member).  Stored name = the link target."""
         t = self.tmp(".tar")
-        members = [(b"x", tarfile.DIRTYPE, None, b"")] + [(b"x/s%03d" % i, tarfile.SYMTYPE, s, b"") for i, s in enumerate(batch)]
+        members = [(b"c18x", tarfile.DIRTYPE, None, b"")] + [(b"c18x/s%03d" % i, tarfile.SYMTYPE, s, b"") for i, s in enumerate(batch)]
         self.mktar(t, members)
-        rc, out, err = self.run([self.t2s, "-r", "x", "-f", "-q", t.with_suffix(".sqfs")], stdin=t)
+        rc, out, err = self.run([self.t2s, "-r", "c18x", "-f", "-q", t.with_suffix(".sqfs")], stdin=t)
         ls = self.listing(t.with_suffix(".sqfs")) if rc == 0 else "rc=%d" % rc
         tg = {p: x for p, k, _, x in ls if k == "l"} if isinstance(ls, list) else {}
         for i, s in enumerate(batch):
             m = self.model[s]
-            exp = m[1:] if (m is not None and m.startswith(b"x/")) else s
+            exp = m[len(b"c18x"):] if (m is not None and m.startswith(b"c18x/")) else s
             got = tg.get(b"s%03d" % i, ls if not isinstance(ls, list) else "missing")
             self.add("t2s_retarget", "reject" if m is None else "accept", s, exp, got, got == exp, err)
 
     def cases_rd_path(self):
-        rej = reject_set(self.rng, [b"x/y/z", b"q"], self.n)
+        rej = reject_set(self.rng, [b"c18x/y/z", b"c18q"], self.n)
         acc_f = accept_set(self.rng, REF_FILES, self.n // 2 + 2)
         acc_d = accept_set(self.rng, REF_DIRS, self.n // 2 + 2) + [b"/", b".", b"./", b"//."]
         return ([("reject", s) for s in rej] + [("cat", s) for s in acc_f] + [("ls", s) for s in acc_d] +
@@ -579,81 +619,83 @@ class Funnel:
                 self.add(name, "reject" if m is None else "accept", s, "fail" if m is None else "ok " + tok(m), a, ok, keep=i < 3)
 
     # ================================================================ probes (class B)
-    def probe_b_gensquashfs_dir(self):
+    def probe_b_gensquashfs_dir(self, T):
         """mkfs.c pack_files ('packing <path>' + the file is opened under that name relative to the pack directory)
         and apply_xattr.c get_full_path (path handed to llistxattr, recorded by harness/h_c18_xattr_shim.c);
         gensquashfs --pack-dir <srcdir> --keep-xattr"""
         img = self.tmp(".sqfs")
-        rc, out, err = self.run([self.gen_shim, "-D", self.src_dir, "-x", "-f", img])
+        rc, out, err = self.run([self.gen_shim, "-D", T.src_dir, "-x", "-f", img])
         packing = sorted(l[len(b"packing "):] for l in out.splitlines() if l.startswith(b"packing "))
         ls = self.listing(img) if rc == 0 else "rc=%d" % rc
         stored = sorted(p for p, _, _, _ in ls) if isinstance(ls, list) else ls
-        self.add("b_packing", "accept", b"--pack-dir srcdir", sorted(REF_FILES), packing if rc == 0 else "rc=%d" % rc,
-                 rc == 0 and packing == sorted(REF_FILES) and stored == sorted(REF_PATHS), err)
+        self.add("b_packing", "accept", T.name.encode(), sorted(T.files), packing if rc == 0 else "rc=%d" % rc,
+                 rc == 0 and packing == sorted(T.files) and stored == sorted(T.paths), err)
         seen = sorted(l[len(b"C18-LLISTXATTR "):] for l in err.splitlines() if l.startswith(b"C18-LLISTXATTR "))
-        pre = os.fsencode(str(self.src_dir)) + b"/"
-        exp = sorted([pre] + [pre + p for p in REF_PATHS])
-        self.add("b_scan_xattr", "accept", b"--pack-dir srcdir --keep-xattr", exp, seen if rc == 0 else "rc=%d" % rc, rc == 0 and seen == exp, err)
+        pre = os.fsencode(str(T.src_dir)) + b"/"
+        exp = sorted([pre] + [pre + p for p in T.paths])
+        self.add("b_scan_xattr", "accept", T.name.encode(), exp, seen if rc == 0 else "rc=%d" % rc, rc == 0 and seen == exp, err)
 
-    def probe_b_glob(self):
+    def probe_b_glob(self, T):
         """glob.c glob_files: prefix of the globbed entries = canonical path of the target directory"""
         t = self.tmp(".txt")
         t.write_bytes(b"dir /p//q/ 0755 0 0\nglob /p//./q/ 0644 0 0 -- .\n")
         img = t.with_suffix(".sqfs")
-        rc, out, err = self.run([self.gen, "-D", self.src_dir, "-F", t, "-f", "-q", img])
+        rc, out, err = self.run([self.gen, "-D", T.src_dir, "-F", t, "-f", "-q", img])
         ls = self.listing(img) if rc == 0 else "rc=%d" % rc
         got = sorted(p for p, _, _, _ in ls) if isinstance(ls, list) else ls
-        exp = sorted([b"p", b"p/q"] + [b"p/q/" + p for p in REF_PATHS])
-        self.add("b_glob", "accept", b"glob /p//./q/", exp, got, got == exp, err)
+        exp = sorted([b"p", b"p/q"] + [b"p/q/" + p for p in T.paths])
+        self.add("b_glob", "accept", T.name.encode(), exp, got, got == exp, err)
 
-    def probe_b_sortmatch(self):
-        """sort_by_file.c fstree_sort_files: every file of the reference tree is matched by its clean path"""
+    def probe_b_sortmatch(self, T):
+        """sort_by_file.c fstree_sort_files: every file of the tree is matched by its clean path"""
         t = self.tmp(".sort")
-        t.write_bytes(b"".join(b"%d %s\n" % (i + 1, p) for i, p in enumerate(REF_FILES)))
-        rc, out, err = self.run([self.gen, "-F", self.ref_txt, "-S", t, "-f", "-q", t.with_suffix(".sqfs")])
+        t.write_bytes(b"".join(b"%d %s\n" % (i + 1, p) for i, p in enumerate(T.files)))
+        rc, out, err = self.run([self.gen, "-F", T.txt, "-S", t, "-f", "-q", t.with_suffix(".sqfs")])
         warn = [l for l in err.splitlines() if b"no match" in l]
-        self.add("b_sortmatch", "accept", b"sort file naming every file", "all matched", "all matched" if rc == 0 and not warn else "rc=%d %r" % (rc, warn), rc == 0 and not warn, err)
+        self.add("b_sortmatch", "accept", T.name.encode(), "all matched", "all matched" if rc == 0 and not warn else "rc=%d %r" % (rc, warn), rc == 0 and not warn, err)
 
-    def probe_b_unpack(self):
+    def probe_b_unpack(self, T):
         """rdsquashfs -u / -T: restore_fstree.c create_node_dfs ('creating <p>' and the node created), fill_files.c
         add_file ('unpacking <p>' and the content written), restore_fstree.c set_attribs (time stamp set on <p>)"""
         jail = self.tmp(".jail")
         (jail / "R").mkdir(parents=True)
-        rc, out, err = self.run([self.rd, "-u", "/", "-T", self.ref_img], cwd=jail / "R")
+        rc, out, err = self.run([self.rd, "-u", "/", "-T", T.img], cwd=jail / "R")
         creating = [l[len(b"creating "):] for l in out.splitlines() if l.startswith(b"creating ")]
         unpacking = [l[len(b"unpacking "):] for l in out.splitlines() if l.startswith(b"unpacking ")]
-        self.add("b_create", "accept", b"-u /", sorted(REF_PATHS), sorted(creating) if rc == 0 else "rc=%d" % rc, rc == 0 and sorted(creating) == sorted(REF_PATHS), err)
-        self.add("b_fill", "accept", b"-u /", sorted(REF_FILES), sorted(unpacking) if rc == 0 else "rc=%d" % rc, rc == 0 and sorted(unpacking) == sorted(REF_FILES), err)
+        self.add("b_create", "accept", T.name.encode(), sorted(T.paths), sorted(creating) if rc == 0 else "rc=%d" % rc, rc == 0 and sorted(creating) == sorted(T.paths), err)
+        self.add("b_fill", "accept", T.name.encode(), sorted(T.files), sorted(unpacking) if rc == 0 else "rc=%d" % rc, rc == 0 and sorted(unpacking) == sorted(T.files), err)
         tree, bad = [], []
-        for root, dirs, files in os.walk(str(jail)):
+        for root, dirs, files in os.walk(os.fsencode(str(jail))):
             for n in dirs + files:
-                tree.append(os.path.relpath(os.path.join(root, n), str(jail)).encode())
-        exp_tree = sorted([b"R"] + [b"R/" + p for p in REF_PATHS])
-        for p, k, data in REF:
-            q = jail / "R" / p.decode()
+                tree.append(os.path.relpath(os.path.join(root, n), os.fsencode(str(jail))))
+        exp_tree = sorted([b"R"] + [b"R/" + p for p in T.paths])
+        for p, k, data in T.entries:
+            q = jail / "R" / os.fsdecode(p)
             if k == "f" and (not q.is_file() or q.read_bytes() != data):
                 bad.append(("content", p))
             if q.exists() and int(q.lstat().st_mtime) != 0:
                 bad.append(("mtime", p))
-        self.add("b_attribs", "accept", b"-u / -T", (exp_tree, []), (sorted(tree), bad) if rc == 0 else "rc=%d" % rc, rc == 0 and sorted(tree) == exp_tree and not bad, err)
+        self.add("b_attribs", "accept", T.name.encode(), (exp_tree, []), (sorted(tree), bad) if rc == 0 else "rc=%d" % rc, rc == 0 and sorted(tree) == exp_tree and not bad, err)
 
-    def probe_b_describe(self):
+    def probe_b_describe(self, T):
         """describe.c print_name: names printed by rdsquashfs -d"""
-        rc, out, err = self.run([self.rd, "-d", self.ref_img])
+        rc, out, err = self.run([self.rd, "-d", T.img])
         got = sorted(l.split()[1] for l in out.splitlines() if len(l.split()) > 1)
-        exp = sorted([b"/"] + REF_PATHS)
-        self.add("b_describe", "accept", b"-d", exp, got if rc == 0 else "rc=%d" % rc, rc == 0 and got == exp, err)
+        exp = sorted([b"/"] + T.paths)
+        self.add("b_describe", "accept", T.name.encode(), exp, got if rc == 0 else "rc=%d" % rc, rc == 0 and got == exp, err)
 
-    def probe_b_sqfsdiff(self):
+    def probe_b_sqfsdiff(self, T):
         """sqfsdiff/util.c node_path: paths reported for entries present in only one image"""
         t = self.tmp(".txt")
-        t.write_bytes(self.ref_txt.read_bytes() + b"dir x/y/only 0755 0 0\ndir q/.../deep 0755 0 0\n")
+        extra = [T.dirs[0] + b"/only-here", T.dirs[-1] + b"/..new/deep"]     # names no tree of this module uses
+        t.write_bytes(T.txt.read_bytes() + b"".join(b"dir " + e + b" 0755 0 0\n" for e in extra))
         img = t.with_suffix(".sqfs")
         rc0, _, err0 = self.run([self.gen, "-F", t, "-f", "-q", img])
-        rc, out, err = self.run([self.diff, "-a", self.ref_img, "-b", img])
+        rc, out, err = self.run([self.diff, "-a", T.img, "-b", img])
         got = sorted(l for l in out.splitlines() if l[:2] in (b"> ", b"< "))
-        exp = sorted([b"> x/y/only", b"> q/...", b"> q/.../deep"])
-        self.add("b_sqfsdiff", "accept", b"image with two more directories", exp, got if rc0 == 0 and not self.crashed(rc) else "rc=%d/%d" % (rc0, rc),
+        new = {extra[0], extra[1], extra[1][:-len(b"/deep")]} - set(T.paths)
+        exp = sorted(b"> " + e for e in new)
+        self.add("b_sqfsdiff", "accept", T.name.encode(), exp, got if rc0 == 0 and not self.crashed(rc) else "rc=%d/%d" % (rc0, rc),
                  rc0 == 0 and not self.crashed(rc) and got == exp, err0 + err)
 
     # ================================================================ probes (class S): is_filename_sane on image names
@@ -669,8 +711,8 @@ class Funnel:
         rdsquashfs -d (describe.c describe_tree) must fail exactly when the model refuses the name."""
         N = sqfs_forge.Node
         sane = self.sane[name]
-        root = N(b"", "d", children=[N(b"d1", "d", children=[N(name, "f", payload=b"payload\n"), N(b"sib", "f", payload=b"s\n")]),
-                                     N(b"d2", "d", children=[N(name, "d", children=[N(b"in", "f", payload=b"i\n")]), N(b"sib", "f", payload=b"s\n")])])
+        root = N(b"", "d", children=[N(b"c18d1", "d", children=[N(name, "f", payload=b"payload\n"), N(b"sib", "f", payload=b"s\n")]),
+                                     N(b"c18d2", "d", children=[N(name, "d", children=[N(b"in", "f", payload=b"i\n")]), N(b"sib", "f", payload=b"s\n")])])
         img = self.tmp(".sqfs")
         img.write_bytes(sqfs_forge.forge(root))
         jail = self.tmp(".jail")
@@ -681,8 +723,8 @@ class Funnel:
         for r_, dirs, files in os.walk(os.fsencode(str(jail))):
             for n in dirs + files:
                 tree.append(os.path.relpath(os.path.join(r_, n), os.fsencode(str(jail))))
-        base = [b"R", b"canary", b"R/d1", b"R/d2", b"R/d1/sib", b"R/d2/sib"]
-        exp_tree = sorted(base + ([b"R/d1/" + name, b"R/d2/" + name, b"R/d2/" + name + b"/in"] if sane else []))
+        base = [b"R", b"canary", b"R/c18d1", b"R/c18d2", b"R/c18d1/sib", b"R/c18d2/sib"]
+        exp_tree = sorted(base + ([b"R/c18d1/" + name, b"R/c18d2/" + name, b"R/c18d2/" + name + b"/in"] if sane else []))
         skips = err.count(b"Found an entry named '" + name + b"', skipping.")
         exp_skips = 0 if sane else 4            # create_node_dfs and gen_file_list_dfs, for the file and for the directory
         canary_ok = (jail / "canary").read_bytes() == b"canary"
@@ -741,8 +783,13 @@ class Funnel:
                 "b_sortmatch": self.probe_b_sortmatch, "b_create": self.probe_b_unpack, "b_fill": self.probe_b_unpack,
                 "b_attribs": self.probe_b_unpack, "b_describe": self.probe_b_describe, "b_sqfsdiff": self.probe_b_sqfsdiff,
                 "fixture_unpack": self.probe_fixture, "fixture_describe": self.probe_fixture}
-        if probe in bmap:
-            bmap[probe]()
+        if probe.startswith("fixture"):
+            self.probe_fixture()
+        elif probe in bmap:
+            # the seeded trees are regenerated in the same order as in the recorded run (same ctx.rng stream is not
+            # available here): replay every tree of this seed that carries the recorded name, else the fixed tree
+            for T in [t for t in self.trees if t.name.encode() == inp] or [self.T0]:
+                bmap[probe](T)
         elif probe == "t2s_retarget":
             self.probe_t2s_retarget("batch", (inp,))
         elif probe == "rd_path":
@@ -794,8 +841,10 @@ class Funnel:
         for name in self.A_PROBES + ["sane"]:
             for kind, s in cases[name]:
                 jobs.append((getattr(self, "probe_" + name), (kind, s)))
-        for b in ("probe_b_gensquashfs_dir", "probe_b_glob", "probe_b_sortmatch", "probe_b_unpack", "probe_b_describe", "probe_b_sqfsdiff", "probe_fixture"):
-            jobs.append((getattr(self, b), ()))
+        for T in self.trees:
+            for b in ("probe_b_gensquashfs_dir", "probe_b_glob", "probe_b_sortmatch", "probe_b_unpack", "probe_b_describe", "probe_b_sqfsdiff"):
+                jobs.append((getattr(self, b), (T,)))
+        jobs.append((self.probe_fixture, ()))
         with ThreadPoolExecutor(JOBS) as ex:
             futs = [ex.submit(f, *a) for f, a in jobs]
             for fu in futs:
